@@ -305,6 +305,87 @@ theorem ret_arr_alias_counterexample :
     ((s2.apps 0).bind (fun ap => ap.shmArr 0)) = some [some 7] := by
   decide
 
+/-! ## Positive semantics of the remaining instructions (what the statement enumerates) -/
+
+theorem set_spec (hw a l pc r) (v : Int) (hf : fits hw v = true) :
+    stepLoc hw a (.set r v) l pc = .ok { l with ap := l.ap.setReg r v } (pc + 1) := by
+  simp [stepLoc, wr, hf]
+
+theorem lea_spec (hw a l pc r) (ad : Int) (hf : fits hw ad = true) :
+    stepLoc hw a (.lea r ad) l pc = .ok { l with ap := l.ap.setReg r ad } (pc + 1) := by
+  simp [stepLoc, wr, hf]
+
+/-- `load`: Python indexing — `k` in `[-len, len)`, negative `k` counts from the end -/
+theorem load_spec (hw a l pc r ad ix) (k v : Int) (arr : List Val) (p : Nat)
+    (hi : l.ap.regs ix = some k) (hfa : fits hw ad = true) (ha : l.ap.arrays ad = some arr)
+    (hp : pyIdx arr.length k = some p) (hv : arr[p]?.join = some v) (hfv : fits hw v = true) :
+    stepLoc hw a (.load r ad ix) l pc = .ok { l with ap := l.ap.setReg r v } (pc + 1) := by
+  simp [stepLoc, wr, hi, hfa, ha, hp, hv, hfv]
+
+theorem undef_spec (hw a l pc ad ix) (k : Int) (arr : List Val) (p : Nat)
+    (hi : l.ap.regs ix = some k) (hfa : fits hw ad = true) (ha : l.ap.arrays ad = some arr)
+    (hp : pyIdx arr.length k = some p) :
+    stepLoc hw a (.undef ad ix) l pc =
+      .ok { l with ap := { l.ap with arrays := upd l.ap.arrays ad (some (arr.set p none)) } } (pc + 1) := by
+  simp [stepLoc, hi, hfa, ha, hp]
+
+/-- `array`: a fresh array of `n` undefined entries (none for `n ≤ 0`); registers untouched -/
+theorem array_spec (hw a l pc sz ad) (n : Int) (hs : l.ap.regs sz = some n) (hfa : fits hw ad = true) :
+    ∃ l', stepLoc hw a (.array sz ad) l pc = .ok l' (pc + 1) ∧
+      l'.ap.arrays ad = some (List.replicate n.toNat none) ∧ l'.ap.regs = l.ap.regs := by
+  refine ⟨{ l with ap := { l.ap with arrays := upd l.ap.arrays ad (some (List.replicate n.toNat none)),
+                                      shmArrs := upd l.ap.shmArrs ad (freeze l.ap ad) } }, ?_, by simp, rfl⟩
+  simp [stepLoc, hs, hfa]
+
+/-- `qalloc` bookkeeping: the free virtual slot gets the smallest unused physical qubit, which
+becomes used; nothing else changes -/
+theorem qalloc_spec (hw a l pc r) (v : Int) (p : Nat) (hr : l.ap.regs r = some v)
+    (hlt : v < l.ap.unit.length) (hp : pyIdx l.ap.unit.length v = some p)
+    (hn : l.ap.unit[p]?.join = none) :
+    stepLoc hw a (.qalloc r) l pc =
+      .ok { l with ap := { l.ap with unit := l.ap.unit.set p (some (firstUnused l.used)) },
+                   used := sadd (firstUnused l.used) l.used } (pc + 1)
+    ∧ firstUnused l.used ∉ l.used := by
+  have : ¬ v ≥ l.ap.unit.length := by omega
+  exact ⟨by simp [stepLoc, hr, this, hp, hn], firstUnused_not_mem _⟩
+
+/-- `qfree` bookkeeping: the slot is cleared and its physical qubit is no longer used -/
+theorem qfree_spec (hw a l pc r) (v : Int) (p q : Nat) (hr : l.ap.regs r = some v)
+    (hp : pyIdx l.ap.unit.length v = some p) (hq : l.ap.unit[p]?.join = some q) (hm : q ∈ l.used) :
+    stepLoc hw a (.qfree r) l pc =
+      .ok { l with ap := { l.ap with unit := l.ap.unit.set p none }, used := srem q l.used } (pc + 1)
+    ∧ q ∉ srem q l.used := by
+  exact ⟨by simp [stepLoc, hr, hp, hq, hm], by simp [mem_srem]⟩
+
+/-- `meas`: the scripted outcome lands in the classical register, one trace event is recorded -/
+theorem meas_spec (hw a l pc q c) (v : Int) (hq : l.ap.regs q = some v) (hf : fits hw (l.oracle.headD 0) = true) :
+    ∃ l', stepLoc hw a (.meas q c) l pc = .ok l' (pc + 1) ∧ l'.ap.regs c = some (l.oracle.headD 0) ∧
+      l'.oracle = l.oracle.tail ∧ l'.trace = l.trace ++ [⟨a, "meas", [v]⟩] := by
+  refine ⟨{ (ev { l with oracle := l.oracle.tail } a "meas" [v]) with ap := l.ap.setReg c (l.oracle.headD 0) },
+    ?_, by simp [App.setReg], rfl, rfl⟩
+  simp only [stepLoc, hq]
+  rw [if_pos hf]
+
+/-- in hardware mode whatever an instruction writes into a register fits 32 bits -/
+theorem hw_written_fits (a i l l' pc pc' r) (h : stepLoc true a i l pc = .ok l' pc') (hr : i.wreg = some r) :
+    ∃ v, l'.ap.regs r = some v ∧ -2147483648 ≤ v ∧ v ≤ 2147483647 := by
+  have key : ∀ {l pc r v l' pc'}, wr true l pc r v = .ok l' pc' →
+      ∃ v, l'.ap.regs r = some v ∧ -2147483648 ≤ v ∧ v ≤ 2147483647 := by
+    intro l pc r v l' pc' hw
+    obtain ⟨h1, _, h3⟩ := wr_ok hw
+    subst h1
+    refine ⟨v, by simp [App.setReg], ?_⟩
+    simpa [fits] using h3
+  cases i <;> simp only [Instr.wreg] at hr <;> cases hr <;> simp only [stepLoc] at h
+  all_goals (try unfold arith at h)
+  all_goals (try unfold arithm at h)
+  all_goals repeat' split at h
+  all_goals first | exact key h | (cases h; done) | skip
+  rename_i hfit
+  cases h
+  refine ⟨l.oracle.headD 0, by simp [App.setReg], ?_⟩
+  simpa [fits] using hfit
+
 /-! ## Non-vacuity: the hypotheses above are satisfiable by concrete instances -/
 
 def demoLoc : Loc :=
@@ -326,5 +407,11 @@ example : stepLoc false 0 (.blt r0 r1 (-4)) demoLoc 9 = .ok demoLoc (-4) := by
 
 example : (run false 0 [.set r0 1, .qalloc r0, .qalloc r0] 10 (initApp init0 0 2).1 0).out
     = .fault .doubleAlloc (some 2) := by decide
+
+example : stepLoc false 0 (.load r0 0 r1) { demoLoc with ap := demoLoc.ap.setReg r1 (-1) } 0
+    = .ok { demoLoc with ap := (demoLoc.ap.setReg r1 (-1)).setReg r0 4 } 1 :=
+  -- negative index: `@0[-1]` is the last entry
+  load_spec false 0 _ 0 r0 0 r1 (-1) 4 [none, some 4] 1 (by decide) (by decide) (by decide) (by decide)
+    (by decide) (by decide)
 
 end NQ.C04
